@@ -93,31 +93,51 @@ fn model_op(op: usize, a: &str, b: &str) -> Emit {
 fn op_line(op: usize, x: &str, y: &str) -> String {
     format!("{}({x} {} {y})", if op == 0 { "vh_emit_str" } else { "vh_emit_bool" }, OPS[op])
 }
-/// every operation on (X, Y) is followed by a different operation on the fixed prefix-related probe pair, so
-/// progress state left behind by one string instruction shows in the next one (which has other operands)
-fn probed_body(x: &str, y: &str) -> String {
+/// Every operation on (X, Y) is followed by a probe: another string operation on OTHER operands, so that progress
+/// state or operands left behind by one resumable string instruction show in the next one.
+/// probe kind 0: a different operation each time on the prefix-related pair; 1: always a concatenation (its result
+/// shows which operands it really used); 2: always a comparison whose result is `true` (a resumed stale comparison of
+/// unequal operands tends to answer `false`).
+const PROBE_KINDS: usize = 3;
+fn probe_for(kind: usize, i: usize) -> (usize, &'static str, &'static str) {
+    let (p, q) = if i % 2 == 0 { PROBE } else { (PROBE.1, PROBE.0) };
+    match kind {
+        0 => ((i + 3) % 7, p, q),
+        1 => (0, p, q),
+        _ => match i {
+            0 => (5, "pq", "p"),
+            1 => (1, "pq", "pq"),
+            2 => (3, "p", "pq"),
+            3 => (4, "p", "pq"),
+            4 => (6, "pq", "p"),
+            5 => (2, "p", "pq"),
+            _ => (5, "pr", "pq"),
+        },
+    }
+}
+fn probed_body(x: &str, y: &str, kind: usize) -> String {
     let mut lines = vec![];
     for i in 0..7 {
         lines.push(op_line(i, x, y));
-        let (p, q) = if i % 2 == 0 { PROBE } else { (PROBE.1, PROBE.0) };
-        lines.push(op_line((i + 3) % 7, &lit(p), &lit(q)));
+        let (op, p, q) = probe_for(kind, i);
+        lines.push(op_line(op, &lit(p), &lit(q)));
     }
     lines.join("\n")
 }
-pub fn expected_probed(a: &str, b: &str) -> Vec<Emit> {
+pub fn expected_probed(a: &str, b: &str, kind: usize) -> Vec<Emit> {
     let mut v = vec![];
     for i in 0..7 {
         v.push(model_op(i, a, b));
-        let (p, q) = if i % 2 == 0 { PROBE } else { (PROBE.1, PROBE.0) };
-        v.push(model_op((i + 3) % 7, p, q));
+        let (op, p, q) = probe_for(kind, i);
+        v.push(model_op(op, p, q));
     }
     v
 }
 
 const FORMS: [&str; 5] = ["var∘var", "lit∘lit", "var∘lit", "lit∘var", "fn∘fn"];
 
-fn case_for(a: &str, b: &str, form: usize) -> Case {
-    let name = format!("str {:?} op {:?} [{}]", a, b, FORMS[form]);
+fn case_for(a: &str, b: &str, form: usize, kind: usize) -> Case {
+    let name = format!("str {:?} op {:?} [{}] probe-kind {kind}", a, b, FORMS[form]);
     let (pre, x, y, inputs): (String, String, String, Vec<Input>) = match form {
         0 => ("let a = vh_next_str()\nlet b = vh_next_str()\n".into(), "a".into(), "b".into(), vec![Input::Str(a.into()), Input::Str(b.into())]),
         1 => (String::new(), lit(a), lit(b), vec![]),
@@ -130,7 +150,7 @@ fn case_for(a: &str, b: &str, form: usize) -> Case {
             vec![Input::Str(a.into()), Input::Str(b.into())],
         ),
     };
-    let body = format!("{pre}{}", probed_body(&x, &y));
+    let body = format!("{pre}{}", probed_body(&x, &y, kind));
     let mut c = Case::new(name, body);
     if form == 4 {
         c = c.decl("fn c17_id(s: string) -> string = s");
@@ -150,7 +170,7 @@ impl C17 {
     fn layout(tier: Tier) -> (usize, usize, usize) {
         let n = strings().len();
         let forms = tier.pick(3, FORMS.len());
-        (BUDGETS.len() * forms, n, tier.pick(n / 3, n))
+        (BUDGETS.len() * forms * PROBE_KINDS, n, tier.pick(n / 3, n))
     }
 }
 
@@ -171,14 +191,15 @@ impl Prop for C17 {
         if unit < n_batch {
             // (a) uniform budgets
             let forms = tier.pick(3, FORMS.len());
-            let budget = BUDGETS[unit / forms];
-            let form = unit % forms;
+            let kind = unit % PROBE_KINDS;
+            let budget = BUDGETS[(unit / PROBE_KINDS) / forms];
+            let form = (unit / PROBE_KINDS) % forms;
             let mut cases = vec![];
             let mut exps = vec![];
             for a in &ss {
                 for b in &ss {
-                    cases.push(case_for(a, b, form));
-                    exps.push(expected_probed(a, b));
+                    cases.push(case_for(a, b, form, kind));
+                    exps.push(expected_probed(a, b, kind));
                 }
             }
             run_cases(out, 0, &cases, 200, COpts::default(), ROpts { budget, max_steps: 200_000 }, |out, k, c, r| {
@@ -362,7 +383,7 @@ impl Prop for C17 {
         let n = strings().len();
         format!(
             "all {n}x{n} ordered pairs over the structured string set (empty, prefix/extension pairs, first difference at first/middle/last byte of a 40-byte string, NUL byte, 2- and 3-byte UTF-8), each evaluating `..` and the six comparisons: \
-             (a) in {} operand forms under every uniform budget in {:?}, each of the seven operations followed by a different operation on a fixed prefix-related probe pair (so state left behind by one string instruction shows in the next); (b) var∘var form under ALL embedder executions with <= 1 deviation for {} left operands; \
+             (a) in {} operand forms under every uniform budget in {:?}, each of the seven operations followed by a probe operation on other operands in 3 probe kinds (rotating operations, always a concatenation, always a comparison that is true), so state left behind by one string instruction shows in the next; (b) var∘var form under ALL embedder executions with <= 1 deviation for {} left operands; \
              (c) var∘var form with a collection cycle started at EVERY instruction boundary and completed after {:?} further steps (real collector via hooks, quarantine on). Oracle: Rust byte-wise concatenation and ordering.",
             tier.pick(3, FORMS.len()),
             BUDGETS,
